@@ -11,3 +11,5 @@ LEVEL_TEXT = "Deductive proof of the gating obligation and of the dialect constr
 LEVEL_NOTE = "Trusts _csv through axiom A-CSV (bounded audit), the pyvc encoding, z3/cvc5."
 TECHNIQUE = "contract-based deductive verification of the real functions (VCs via z3/cvc5) + bounded audit of the dependency axiom"
 UNITS = [D.unit_validate(), RD.unit_as_delimited_keywords(), RD.unit_delimited_rows(), RD.unit_audit_csv()]
+from contracts import rowio_writers as RW
+UNITS += [RW.unit_delimited_row_writer_write_row(), RW.unit_delimited_row_writer_init(), RW.unit_row_writer_close(), RW.unit_row_writer_write_rows()]
